@@ -490,6 +490,11 @@ func (f *Frame) contractEnv(ct *FuncContract, bind map[string]string, cur, old *
 					return top.val(p).T, true
 				}
 			}
+			for _, fv := range top.fn.FreeVars {
+				if fv.Name() == a {
+					return top.val(fv).T, true
+				}
+			}
 		}
 		return "", false
 	}
